@@ -446,7 +446,28 @@ func init() {
 				}
 			}
 		}
-		return "hostile handler offsets (MaxInt64-k, MinInt64+k, ±2^62, exact±1, len-1..len+2, small negatives) at every call index on generated documents and transition-cover strings; every exported entry point on mutated documents, random bytes, string-token corner cases (exact-capacity inputs), nesting 10^5 (quick) / 10^6 (thorough) in four array/object mixtures, megabyte single tokens; panics (recover), offsets outside the input with a nil error, and model correspondence", nil
+		// number literals on every conversion path (table boundaries of the multiprecision slow path included) through
+		// the float entry points, alone and inside a document
+		lits, lcl := floatLiterals(c)
+		for i, lit := range lits {
+			if !c.thorough() && (lcl[i] == "generated" || lcl[i] == "generated-long" || lcl[i] == "table-row") && i%4 != 0 {
+				continue
+			}
+			h := hx([]byte(lit))
+			ops := [][]string{{"ReadFloat64", h}, {"DecodeFloat64", h, "7"}}
+			if i%4 == 0 {
+				ops = append(ops, []string{"ReadValue", hx([]byte("[1," + lit + "]"))})
+			}
+			for _, oa := range ops {
+				impl := runAPI(oa[0], oa[1:])
+				s.Evaluations++
+				s.Classes["float-entry:"+lcl[i]]++
+				if impl == "panic" {
+					s.Violation(oa[0]+" "+strings.Join(oa[1:], " "), impl, "no panic", "float-entry", "exported function panicked on a number literal")
+				}
+			}
+		}
+		return "hostile handler offsets (MaxInt64-k, MinInt64+k, ±2^62, exact±1, len-1..len+2, small negatives) at every call index on generated documents and transition-cover strings; every exported entry point on mutated documents, random bytes, string-token corner cases (exact-capacity inputs), nesting 10^5 (quick) / 10^6 (thorough) in four array/object mixtures, megabyte single tokens; the number literals of the C04 suite (every conversion path, table boundaries of the slow path) through ReadFloat64 / DecodeFloat64 / ReadValue; panics (recover), offsets outside the input with a nil error, and model correspondence", nil
 	}
 }
 
